@@ -10,6 +10,7 @@ mod pipe;
 mod radix;
 mod router;
 mod tok;
+mod total;
 mod url;
 mod util;
 
@@ -25,6 +26,8 @@ fn main() {
     util::install_panic_hook();
     let (inp, outp) = (args[2].as_str(), args[3].as_str());
     match args[1].as_str() {
+        "total" => total::parent(inp, outp),
+        "total_child" => total::child(inp, outp, args.get(4).and_then(|x| x.parse().ok()).unwrap_or(0)),
         "ffi" => ffi::parent(inp, outp),
         "ffi_child" => ffi::child(inp, outp, args.get(4).and_then(|x| x.parse().ok()).unwrap_or(0)),
         "c13" => util::run_cases(inp, outp, c13::run),
